@@ -567,7 +567,7 @@ pub fn spec(id: &str) -> Option<CheckSpec> {
                     }
                     for op in c.ops.iter_mut() {
                         match op {
-                            crate::spec::Op::Insert { len, .. } | crate::spec::Op::Fill { len, .. } => {
+                            crate::spec::Op::Insert { len, .. } | crate::spec::Op::Fill { len, .. } | crate::spec::Op::Swapped { len, .. } => {
                                 if crate::spec::value_len(*len) == 0 {
                                     *len = 0;
                                 }
